@@ -26,9 +26,12 @@ CONSTANTS MsMain,    \* name of the main dataset
           MsExplicit,\* the dependencies as declared in the job configuration (told to the harness)
           MsDeps     \* tuple of [ds, joins] with joins a tuple of [ds, pred, inv] (explicit and implied dependencies)
 
-VARIABLES msMainTok, msDepTok, msFirst
-mvars == <<vars, msMainTok, msDepTok, msFirst>>
-mview == <<view, msMainTok, msDepTok, msFirst>>
+VARIABLES msMainTok, msDepTok, msFirst,
+          msFs     \* the first (full) run read page by page: [on, pos (main position read so far), dep (dependency
+                   \* watermarks taken when it started)]; writes may happen between its pages
+mvars == <<vars, msMainTok, msDepTok, msFirst, msFs>>
+mview == <<view, msMainTok, msDepTok, msFirst, msFs>>
+FsOff == [on |-> FALSE, pos |-> 0, dep |-> <<>>]
 
 DepNames == { MsDeps[k].ds : k \in 1..Len(MsDeps) }
 
@@ -60,8 +63,32 @@ ReachedFrom(dep, tok) ==
 LiveInMain(e) == LET c == LatestIn(F(MsMain), e) IN c # NoV /\ ~IsDel(c)
 EndOf(n) == LET f == F(n) IN IF f = <<>> THEN 0 ELSE f[Len(f)].pos + 1
 
+\* The first run as the pipeline really performs it: the watermarks of the dependency feeds are taken once, when
+\* the full sync starts; then main is read page by page (pages of one here), and other clients may write between
+\* two pages.  When a page comes back empty the run ends and stores: main token = what was read, dependency
+\* tokens = the watermarks of the START - whatever changed in a dependency since then belongs to the next run.
+FsStart ==
+  /\ "fspage" \in Acts /\ msFirst /\ ~msFs.on
+  /\ Exists(MsMain) /\ \A k \in 1..Len(MsDeps) : Exists(MsDeps[k].ds)
+  /\ msFs' = [on |-> TRUE, pos |-> 0, dep |-> [n \in DepNames |-> EndOf(n)]]
+  /\ Log([a |-> "fsstart"])
+  /\ UNCHANGED <<clock, dsInc, nextInc, deletedInc, purgedInc, feed, nextPos, everStored, metaOf, rd, bk,
+                 msMainTok, msDepTok, msFirst>>
+FsPage ==
+  /\ "fspage" \in Acts /\ msFs.on /\ Exists(MsMain)
+  /\ LET f == F(MsMain)
+         I == { i \in 1..Len(f) : f[i].pos >= msFs.pos }
+     IN IF I = {}
+          THEN /\ msMainTok' = msFs.pos /\ msDepTok' = msFs.dep /\ msFirst' = FALSE /\ msFs' = FsOff
+               /\ Log([a |-> "fsend", maintok |-> msFs.pos, deptok |-> msFs.dep])
+          ELSE LET i == CHOOSE x \in I : \A y \in I : x <= y
+               IN /\ msFs' = [msFs EXCEPT !.pos = f[i].pos + 1]
+                  /\ Log([a |-> "fspage", required |-> {f[i].e}, allowed |-> EntsIn(f)])
+                  /\ UNCHANGED <<msMainTok, msDepTok, msFirst>>
+  /\ UNCHANGED <<clock, dsInc, nextInc, deletedInc, purgedInc, feed, nextPos, everStored, metaOf, rd, bk>>
+
 CatchUp ==
-  /\ "catchup" \in Acts
+  /\ "catchup" \in Acts /\ ~msFs.on
   /\ Exists(MsMain) /\ \A k \in 1..Len(MsDeps) : Exists(MsDeps[k].ds)
   /\ LET mainChanged == ChangedIn(F(MsMain), msMainTok)
          reached == IF msFirst THEN {}
@@ -70,16 +97,16 @@ CatchUp ==
          newDep == [n \in DepNames |-> EndOf(n)]
      IN /\ msMainTok' = EndOf(MsMain)
         /\ msDepTok' = newDep
-        /\ msFirst' = FALSE
+        /\ msFirst' = FALSE /\ UNCHANGED msFs
         /\ Log([a |-> "catchup", required |-> required, first |-> msFirst,
                 allowed |-> EntsIn(F(MsMain)), maintok |-> EndOf(MsMain), deptok |-> newDep])
   /\ UNCHANGED <<clock, dsInc, nextInc, deletedInc, purgedInc, feed, nextPos, everStored, metaOf, rd, bk>>
 
-MInit == InitCreated /\ msMainTok = 0 /\ msDepTok = [n \in DepNames |-> 0] /\ msFirst = TRUE
-MNext == \/ (Next /\ UNCHANGED <<msMainTok, msDepTok, msFirst>>)
-         \/ (Steps < MaxSteps /\ CatchUp)
-MNextSample == \/ (NextSample /\ UNCHANGED <<msMainTok, msDepTok, msFirst>>)
-               \/ (Steps < MaxSteps /\ (\E r \in RE(1..3) : r = 1) /\ CatchUp)
+MInit == InitCreated /\ msMainTok = 0 /\ msDepTok = [n \in DepNames |-> 0] /\ msFirst = TRUE /\ msFs = FsOff
+MNext == \/ (Next /\ UNCHANGED <<msMainTok, msDepTok, msFirst, msFs>>)
+         \/ (Steps < MaxSteps /\ (CatchUp \/ FsStart \/ FsPage))
+MNextSample == \/ (NextSample /\ UNCHANGED <<msMainTok, msDepTok, msFirst, msFs>>)
+               \/ (Steps < MaxSteps /\ (\E r \in RE(1..3) : r = 1) /\ (CatchUp \/ FsStart \/ FsPage))
 MSpec == MInit /\ [][MNext]_mvars
 MSpecSample == MInit /\ [][MNextSample]_mvars
 
@@ -87,6 +114,6 @@ MEmitHeader == PrintT(<<"MHEADER", ToJson([base |-> Header, main |-> MsMain, dep
 
 \* the reference's own sanity: nothing outside the main dataset is ever required
 RequiredFromMain ==
-  (hist' # hist /\ hist'[Len(hist')].a = "catchup") => hist'[Len(hist')].required \subseteq hist'[Len(hist')].allowed
+  (hist' # hist /\ hist'[Len(hist')].a \in {"catchup", "fspage"}) => hist'[Len(hist')].required \subseteq hist'[Len(hist')].allowed
 MsProps == [][RequiredFromMain]_mvars
 =============================================================================
